@@ -88,7 +88,9 @@ def kfoot : Kind → KFoot
   | .addViewDeriver => ⟨[w .viewDerivers], [w .viewDerivers], []⟩
   | .setViewMapper => ⟨[], [w .viewMapper], []⟩
   | .staticRegister => ⟨[w .staticRegistrations], [w .staticRegistrations], []⟩
-  | .cacheBuster => ⟨[w .cacheBusters], [w .cacheBusters], []⟩
+  -- an entry keyed by the statement's (spec, explicit); what is applied to an asset is the most specific matching entry
+  -- (explicit ones first): a function of the SET of entries
+  | .cacheBuster => ⟨[a .cacheBusters], [a .cacheBusters], []⟩
   | .unknown => ⟨[], [], []⟩
 
 /-- Container families the callable (or the discriminator thunk) gets-or-creates (`get_predlist`,
@@ -138,7 +140,7 @@ def sensitivePairs : List (Kind × Kind × Why) :=
     (.addAcceptViewOrder, .addAcceptViewOrder, .outside),
     (.addTranslationDirs, .addTranslationDirs, .outside),
     (.overrideAsset, .overrideAsset, .outside),
-    (.cacheBuster, .cacheBuster, .outside),
+    (.cacheBuster, .cacheBuster, .outside),   -- only for the SAME (spec, explicit): the later replaces the earlier (no discriminator)
     (.setAuthenticationPolicy, .setSecurityPolicy, .outside) ]  -- mutually exclusive, legacy API
 
 def sensitive (k1 k2 : Kind) : Bool :=
